@@ -113,3 +113,36 @@ func (tr Tree) SortedNames() []string {
 	sort.Strings(ns)
 	return ns
 }
+
+// WideNestedTree deals the directives over main.knut, n "month" files included by main and one
+// sub-file per month file (2n+1 files): many parsers are in flight at once and each spawns another.
+func WideNestedTree(t *rapid.T, ds []ref.Directive, n int) Tree {
+	names := []string{"main.knut"}
+	inc := map[string][]string{}
+	for i := 0; i < n; i++ {
+		mid := fmt.Sprintf("m%02d/month.knut", i)
+		leaf := fmt.Sprintf("m%02d/sub/detail.knut", i)
+		names = append(names, mid, leaf)
+		inc["main.knut"] = append(inc["main.knut"], mid)
+		inc[mid] = append(inc[mid], "sub/detail.knut")
+	}
+	parts := map[string][]string{}
+	for _, d := range ds {
+		k := names[rapid.IntRange(0, len(names)-1).Draw(t, "file")]
+		parts[k] = append(parts[k], d.Render())
+	}
+	tree := Tree{Files: map[string]string{}, Main: "main.knut", Depth: 2}
+	for _, name := range names {
+		body := parts[name]
+		for _, target := range inc[name] {
+			line := ref.Directive{Kind: ref.KInclude, Path: target}.Render()
+			pos := len(body)
+			if rapid.Bool().Draw(t, "includeFirst") {
+				pos = 0
+			}
+			body = append(body[:pos:pos], append([]string{line}, body[pos:]...)...)
+		}
+		tree.Files[name] = strings.Join(body, "")
+	}
+	return tree
+}
